@@ -188,7 +188,34 @@ def api_config():
     cfg.models[builtins.open] = model_open
     cfg.models[warnings.catch_warnings] = model_catch_warnings
     cfg.havoc_call = havoc_call_factory()
+    import os
+    import shutil
+
+    def fs_query(name):
+        def m(interp, args, kwargs):
+            interp.ctx.event("fs-query", name, tuple(args))
+            return SBoolFresh(interp.ctx, name)
+
+        return m
+
+    def fs_effect(name):
+        def m(interp, args, kwargs):
+            interp.ctx.event("fs-effect", name, tuple(args))
+            return None
+
+        return m
+
+    for f in (os.path.exists, os.path.isfile, os.path.isdir):
+        cfg.models[f] = fs_query(f.__name__)
+    for f in (os.remove, os.unlink, os.rename, os.replace, shutil.move, shutil.copy, shutil.copyfile, os.makedirs, os.mkdir, os.rmdir):
+        cfg.models[f] = fs_effect(f.__name__)
     return cfg
+
+
+def SBoolFresh(ctx, name):
+    from .values import SBool
+
+    return SBool(z3.Bool(ctx.fresh(f"fs.{name}")))
 
 
 def true_loop(quote, name):
